@@ -42,8 +42,7 @@ def _validate(ctx, traces, timeout=2400, count=True, par=None):
         raise lib.Infra("no traces to validate (dead driver)")
     t0 = time.time()
     with concurrent.futures.ThreadPoolExecutor(max_workers=par or min(lib.NCPU, len(traces))) as ex:
-        res = list(ex.map(_validate_one, [(ctx, t, timeout, _validate.n + i) for i, t in enumerate(traces)]))
-    _validate.n += len(traces)
+        res = list(ex.map(_validate_one, [(ctx, t, timeout, next(_validate.n)) for t in traces]))     # next(): self-tests validate side by side
     out = []
     for r in res:
         if not r["ok"]:
@@ -62,7 +61,7 @@ def _validate(ctx, traces, timeout=2400, count=True, par=None):
     return out
 
 
-_validate.n = 0
+_validate.n = itertools.count()
 
 
 def _drive(ctx, drv, cases, out, chunks, timeout=1500):
